@@ -229,8 +229,16 @@ def execute(scn):
                 from ioos_qc.results import collect_results
 
                 dicts[fe] = rp.dict_results_json_full(collect_results(iter([i for i, _ in ys]), how="dict"))
+                collect_results(iter([i for i, _ in ys]), how="list")
             except Exception as e:  # noqa: BLE001 - the collector is C06's subject; only note it here
                 bump("collector_raised")
+            # what a context reported stays what the test function returned, also after the run was rolled up
+            after = [rp.describe_item(i) for i, _ in ys]
+            if after != final_desc:
+                k = next(j for j in range(len(after)) if after[j] != final_desc[j])
+                V.append(violation(PROP, "b", fe, "context-result-changed-by-collecting", f"yield {k}: {final_desc[k]} became {after[k]}"))
+            else:
+                bump("yields_intact_after_collection")
     # d. replicas agree pairwise
     names = sorted(dicts)
     for a in names[1:]:
